@@ -2,8 +2,9 @@
 Executable specification of the C07 statement, evaluated on implementation outputs:
 `dendroSpec`  : a valid dendrogram over `n` leaves (n-1 rows, row t merges two distinct live clusters, sizes are
                 leaf counts, `n` in the last row) whose heights never decrease when reordering is on;
-`splitSpec`   : the row (column) dendrogram is valid over the rows (columns) and every one of its merges is the
-                restriction to that side of a merge of the full dendrogram, at the same height.
+`splitSpec`   : the row (column) dendrogram is valid over the rows (columns), its merges are exactly the merges of the
+                full dendrogram that join two clusters both meeting that side (same height, restricted leaf set),
+                and its heights never decrease when those of the full dendrogram do not.
 -/
 import SkNet.Spec.Dendro
 import SkNet.Model.Hierarchy
@@ -22,25 +23,43 @@ def dendroSpec (n : Nat) (D : Dendro α) (sorted : Bool) : Except String Unit :=
   need (lastSizeIs n D) "last-size-is-not-n"
   if sorted then need (heightsSorted D) "heights-decrease"
 
-/-- one side: `lo ≤ leaf < hi` are the leaves of the side in the full numbering -/
-def sideSpec (n : Nat) (D : Dendro α) (lo hi : Nat) (S : Dendro α) (name : String) : Except String Unit := do
+/-- one side: `lo ≤ leaf < hi` are the leaves of the side in the full numbering.  The merges of the side dendrogram
+    are exactly the merges of the full one that join two clusters both meeting the side, at the same height
+    (a merge that only adds nodes of the other side has the same restriction but is *not* a witness), and the
+    heights do not decrease when those of the full dendrogram do not (`sorted`). -/
+def sideSpec (n : Nat) (D : Dendro α) (lo hi : Nat) (S : Dendro α) (name : String) (sorted : Bool) :
+    Except String Unit := do
   let k := hi - lo
   need (S.length + 1 == k || (k == 0 && S.isEmpty)) (name ++ "-row-count")
   if k ≥ 1 then
     need (ValidDendro k S) (name ++ "-not-valid")
     need (lastSizeIs k S) (name ++ "-last-size")
+  if sorted then need (heightsSorted S) (name ++ "-heights-decrease")
+  let inSide := fun (x : Nat) => decide (lo ≤ x) && decide (x < hi)
+  let meets := fun (x : Nat) => !((leaves n D x).filter inSide).isEmpty
   need ((List.range S.length).all fun u =>
     match S[u]? with
     | none => false
     | some r => (List.range D.length).any fun t =>
         match D[t]? with
-        | some d => d.h == r.h &&
-            sameSet ((leaves n D (n + t)).filter fun x => lo ≤ x && x < hi) ((leaves k S (k + u)).map (· + lo))
+        | some d => d.h == r.h && meets d.i && meets d.j &&
+            sameSet ((leaves n D (n + t)).filter inSide) ((leaves k S (k + u)).map (· + lo))
         | none => false) (name ++ "-row-is-not-a-restricted-merge")
+  need ((List.range D.length).all fun t =>
+    match D[t]? with
+    | none => false
+    | some d =>
+      if meets d.i && meets d.j then
+        (List.range S.length).any fun u =>
+          match S[u]? with
+          | some r => r.h == d.h &&
+              sameSet ((leaves n D (n + t)).filter inSide) ((leaves k S (k + u)).map (· + lo))
+          | none => false
+      else true) (name ++ "-merge-of-the-full-dendrogram-missing")
 
-def splitSpec (D : Dendro α) (n1 n2 : Nat) (R C : Dendro α) : Except String Unit := do
-  sideSpec (n1 + n2) D 0 n1 R "row"
-  sideSpec (n1 + n2) D n1 (n1 + n2) C "col"
+def splitSpec (D : Dendro α) (n1 n2 : Nat) (R C : Dendro α) (sorted : Bool) : Except String Unit := do
+  sideSpec (n1 + n2) D 0 n1 R "row" sorted
+  sideSpec (n1 + n2) D n1 (n1 + n2) C "col" sorted
 
 end
 
